@@ -15,6 +15,7 @@
 package main
 
 import (
+	"os"
 	"bytes"
 	"context"
 	"fmt"
@@ -35,19 +36,25 @@ import (
 func failf(sig, format string, a ...any) { vsched.Fail(sig, format, a...) }
 
 func firstWords(s string) string {
-	n := 0
-	for i, c := range s {
-		if c == ' ' {
-			n++
-			if n == 5 {
-				return s[:i]
-			}
+	// stable signature: digits replaced, first sentence, bounded length
+	var b []byte
+	prevHash := false
+	for i := 0; i < len(s) && len(b) < 110; i++ {
+		c := s[i]
+		if c == '\n' || c == '(' {
+			break
 		}
 		if c >= '0' && c <= '9' {
-			return s[:i]
+			if !prevHash {
+				b = append(b, '#')
+			}
+			prevHash = true
+			continue
 		}
+		prevHash = false
+		b = append(b, c)
 	}
-	return s
+	return string(b)
 }
 
 func monitors(s *lstore.Store) {
@@ -125,15 +132,21 @@ func (e *env) finish() {
 	}
 	want := s.Geo.BlockCount() - s.Alloc.LiveInList()
 	got := 0
+	// Drain THROUGH the ownership monitor: every region handed out now is also checked against the last
+	// durably written state file (a block released before a state file without it is durable shows here).
+	inList := s.Alloc.LiveInList()
+	want = s.Geo.BlockCount() - inList
+	s.Alloc.FailNewBlock = 0
 	for got <= s.Geo.BlockCount() {
-		if _, _, err := s.Alloc.Base.NewBlock(); err != nil {
+		if _, _, err := s.Alloc.NewBlock(); err != nil {
 			break
 		}
 		got++
 	}
-	vsched.Obs("free=%d inlist=%d newblocks=%d", got, s.Alloc.LiveInList(), s.Alloc.NewBlocks)
+	monitors(s)
+	vsched.Obs("free=%d inlist=%d", got, inList)
 	if got != want {
-		failf("capacity-"+cmp(got, want), "after all readers/writers finished (and the state file was rewritten) the allocator can hand out %d regions, expected %d (= %d total - %d owned by the block list)\nregions: %s", got, want, s.Geo.BlockCount(), s.Alloc.LiveInList(), s.Alloc.Describe())
+		failf("capacity-"+cmp(got, want), "after all readers/writers finished (and the state file was rewritten) the allocator can hand out %d regions, expected %d (= %d total - %d owned by the block list)\nregions: %s", got, want, s.Geo.BlockCount(), inList, s.Alloc.Describe())
 	}
 }
 
@@ -318,6 +331,120 @@ func mixed(g lstore.Geometry, newBlockFaults int) func() {
 	}
 }
 
+// heldWriter: an upload that ends in the middle of a sector (its last sector is written by a final
+// flush) is in flight, gated at every device write, while another uploader rotates blocks: the region
+// of the writer's block must not be handed out before that writer has finished.
+func heldWriter(g lstore.Geometry, rot int) func() {
+	return func() {
+		u := universe(instOf(g))
+		e := open(g)
+		var wg vsync.WaitGroup
+		wg.Add(2)
+		vsched.GoNamed("writer", false, func() {
+			defer wg.Done()
+			err, src := e.s.Put(u.B.Digest, lstore.PutSpec{Chunks: [][]byte{u.B.Content[:2], u.B.Content[2:]}, Gate: true})
+			e.sources = append(e.sources, &srcRec2{what: "Put(B5)", get: func() int { return src.Closes }})
+			vsched.Obs("writer=%s", status.Code(err))
+		})
+		vsched.GoNamed("rotator", false, func() {
+			defer wg.Done()
+			for i, o := range []lstore.Obj{u.C, u.F, u.G, u.H}[:rot] {
+				err := e.put(o, false)
+				vsched.Obs("rot%d=%s", i, status.Code(err))
+				monitors(e.s)
+			}
+		})
+		wg.Wait()
+		monitors(e.s)
+		// whatever the index still resolves must read back intact (raw read path)
+		for _, o := range []lstore.Obj{u.B, u.C, u.F, u.G, u.H}[:rot+1] {
+			if !e.s.Held(o.Digest) {
+				continue
+			}
+			d, err := e.s.Get(o.Digest)
+			if err == nil && !bytes.Equal(d, o.Content) {
+				failf("acknowledged-object-overwritten", "%s reads back as %q: its region was written by someone else\nregions: %s", o.Name, d, e.s.Alloc.Describe())
+			}
+		}
+		e.finish()
+	}
+}
+
+// hierTwoNames: the same object uploaded under two instance names, aged into an old block; every
+// sequence of reads / existence checks under either name (refresh by copy, then refresh by syncing
+// from the canonical entry) and uploads; no reader may stay open, no capacity may be lost.
+func hierTwoNames(g lstore.Geometry, depth int) func() {
+	return func() {
+		e := open(g)
+		ax := lstore.CASObj("A3@x", "x", []byte("aaa"))
+		ay := lstore.CASObj("A3@y", "y", []byte("aaa"))
+		e.mustPut(ax)
+		vsched.Obs("after put x: x held=%v y held=%v", e.s.Held(ax.Digest), e.s.Held(ay.Digest))
+		e.mustPut(ay)
+		vsched.Obs("after put y: x held=%v y held=%v", e.s.Held(ax.Digest), e.s.Held(ay.Digest))
+		fill := 0
+		filler := func() {
+			fill++
+			o := lstore.CASObj("F", "z", []byte(fmt.Sprintf("fil%05d", fill)))
+			err := e.put(o, false)
+			vsched.Obs("F=%s", status.Code(err))
+		}
+		filler()
+		filler()
+		for i := 0; i < depth; i++ {
+			k := vsched.ChooseFree("choice", 5)
+			switch k {
+			case 0, 1:
+				o := []lstore.Obj{ax, ay}[k]
+				d, err := e.s.Get(o.Digest)
+				vsched.Obs("G%d=%s", k, status.Code(err))
+				if err == nil && !bytes.Equal(d, o.Content) {
+					failf("wrong-bytes", "Get = %q", d)
+				}
+			case 2, 3:
+				o := []lstore.Obj{ax, ay}[k-2]
+				_, err := e.s.FindMissing(o.Digest)
+				vsched.Obs("FM%d=%s", k-2, status.Code(err))
+			default:
+				filler()
+			}
+			vsched.Obs("state: x old=%v held=%v, y old=%v held=%v, opened=%d", e.s.NeedsRefresh(ax.Digest), e.s.Held(ax.Digest), e.s.NeedsRefresh(ay.Digest), e.s.Held(ay.Digest), e.s.RBF.Opened)
+			if os.Getenv("C04_DEBUG") != "" && i == depth-1 {
+				failf("debug", "dump")
+			}
+			monitors(e.s)
+			if e.s.RBF.Opened != e.s.RBF.Closed {
+				failf("reader-leak", "after operation %d: %d readers opened, %d closed (still open: %s)", i, e.s.RBF.Opened, e.s.RBF.Closed, e.s.OpenReaders())
+			}
+		}
+		e.finish()
+	}
+}
+
+// rotations: one uploader performs n block-sized uploads (several PopFronts in a row) while both syncer
+// loops run free: a pop can land between GetPersistentState and NotifyPersistentStateWritten of an
+// in-flight state write. The ownership monitor checks every NewBlock against the last durable state file.
+func rotations(g lstore.Geometry, n int) func() {
+	return func() {
+		e := open(g)
+		in := instOf(g)
+		for i := 0; i < n; i++ {
+			if i == 3 {
+				// let the first blocks be committed (data sync + state file) so that the state file lists them
+				vsched.WaitQuiescent()
+			}
+			o := lstore.CASObj(fmt.Sprintf("R%d", i), in, []byte(fmt.Sprintf("rot%05d", i)))
+			err := e.put(o, false)
+			vsched.Obs("put%d=%s", i, status.Code(err))
+			if err != nil && status.Code(err) != codes.Unavailable {
+				failf("upload-error-"+status.Code(err).String(), "upload failed: %v", err)
+			}
+			monitors(e.s)
+		}
+		e.finish()
+	}
+}
+
 // longSeq: every sequence of block-sized uploads / reads / existence checks of the given depth with a NewBlock fault budget.
 func longSeq(g lstore.Geometry, depth, faults int) func() {
 	return func() {
@@ -410,6 +537,25 @@ func main() {
 			g.New = 2
 		}
 		add(fmt.Sprintf("mixed/hier=%v", hier), "Get(A) || FindMissing(A) || Put(G) with A in an old block and 1 allocation failure", g, bound, mixed(g, 1))
+	}
+	for _, pers := range []bool{false, true} {
+		for _, spare := range []int{0, 1} {
+			g := base
+			g.Persistent, g.Spare = pers, spare
+			add(fmt.Sprintf("held-writer/pers=%v-spare=%d", pers, spare), "upload of B5 (ends mid-sector; every device write a gate) || 4 block-sized uploads rotating its block away", g, bound, heldWriter(g, 4))
+		}
+	}
+	for _, pers := range []bool{false, true} {
+		g := base
+		g.Hierarchical, g.New, g.Persistent, g.DataGates = true, 2, pers, false
+		g.Old, g.Spare = 2, 2 // refreshing under one name must not evict the old copy the other name still points to
+		d := ev.Pick(r, 4, 6)
+		add(fmt.Sprintf("hier-two-names/pers=%v", pers), fmt.Sprintf("one object uploaded under two instance names and aged into an old block, then every sequence of %d operations over {Get under x, Get under y, FindMissing under x, under y, block-sized upload}", d), g, 0, hierTwoNames(g, d))
+	}
+	for _, spare := range []int{2, 3} {
+		g := base
+		g.Persistent, g.Spare, g.DataGates = true, spare, false
+		add(fmt.Sprintf("rotations/spare=%d", spare), "3 block-sized uploads, commit, 5 more block-sized uploads in a row (PopFronts of committed blocks) || both syncer loops; every Release and NewBlock is checked against the last durably written state file", g, bound, rotations(g, 8))
 	}
 	depth := ev.Pick(r, 5, 7)
 	for _, hier := range []bool{false, true} {
